@@ -326,10 +326,10 @@ func aberrantAppendField(md *filedesc.Message, goType reflect.Type, tag, tagKey,
 		md.L2.RequiredNumbers.List = append(md.L2.RequiredNumbers.List, fd.L1.Number)
 	}
 
-	if fd.L1.EditionFeatures.IsPacked {
+	if fd.IsPacked() {
 		fd.L1.Options = func() protoreflect.ProtoMessage {
 			opts := descopts.Field.ProtoReflect().New()
-			if fd.L1.EditionFeatures.IsPacked {
+			if fd.IsPacked() {
 				opts.Set(opts.Descriptor().Fields().ByName("packed"), protoreflect.ValueOfBool(fd.L1.EditionFeatures.IsPacked))
 			}
 			return opts.Interface()
